@@ -131,5 +131,22 @@ func genC01(repo string) (string, error) {
 		goast.SkelOpt{Calls: set("CampaignLeader", "KeepLeader", "ResetLeader", "Initialize", "ResetAllocatorGroup", "EnableLeader", "IsLeader", "Rebase", "RefreshClusterDCLocations", "ClusterDCLocationChecker")}); err != nil {
 		return "", err
 	}
+	// the RPC layer: the Tso stream handler (one answer per request, from the allocator manager or from the member the
+	// stream is forwarded to; what it asks the allocator for is what it says it was given)
+	gs, err := goast.Load(repo, "server/grpc_service.go")
+	if err != nil {
+		return "", err
+	}
+	if err := o.skeleton(gs, "Server", "Tso", "skel_handler_Tso", goast.SkelOpt{
+		Calls:    set("Recv", "Send", "isLocalRequest", "getDelegateClient", "createTsoForwardStream", "GetCount", "IsClosed"),
+		ArgCalls: set("HandleTSORequest"), Assigns: set("count", "forwardStream", "lastForwardedHost", "response", "resp", "request", "ts"),
+		Conds: true, Branches: true, Decls: true}); err != nil {
+		return "", err
+	}
+	src, err = funcBodySrc(gs, "Server", "createTsoForwardStream")
+	if err != nil {
+		return "", err
+	}
+	o.sb.WriteString("Definition src_createTsoForwardStream : string := (* server/grpc_service.go *)\n  " + goast.Q(src) + ".\n")
 	return o.sb.String(), nil
 }
